@@ -17,7 +17,7 @@ def table : List (String × List String × List String) := [
   ("field_BH_triangle.triangle_Bfield", ["1e-30", "4.0"], ["==", "<", "<=", "<", ">", ">=", "<"]),
   ("field_BH_triangle.BHJM_triangle", ["0.0"], ["==", "==", "==", "=="]),
   ("field_BH_tetrahedron.check_chirality", [], ["<"]),
-  ("field_BH_tetrahedron.point_inside", ["0.0"], ["==", "==", ">=", "<=", "<="]),
+  ("field_BH_tetrahedron.point_inside", [], ["==", "==", "!=", ">=", "<=", "<="]),
   ("field_BH_tetrahedron.BHJM_magnet_tetrahedron", ["4", "4"], ["==", "==", "==", "=="]),
   ("field_BH_circle.current_circle_Hfield", ["4", "20", "1e-06", "795774.7154594767"], []),
   ("field_BH_circle.BHJM_circle", ["1e-15", "1e-15", "0.5"], ["==", "<", "<", "==", "==", "=="]),
